@@ -641,7 +641,7 @@ def _get_nrows_ncols_step_sizes(xmap: CrystalMap) -> Tuple[int, int, float, floa
     dy
     dx
     """
-    nrows = ncols = 1
+    nrows = ncols = 1  # Kept for a map with a single point (xmap.ndim == 0)
     dy, dx = xmap.dy, xmap.dx
     if xmap.ndim == 1 and xmap.x is None:  # Single column
         nrows = xmap.shape[0]
@@ -649,7 +649,7 @@ def _get_nrows_ncols_step_sizes(xmap: CrystalMap) -> Tuple[int, int, float, floa
     elif xmap.ndim == 1:  # Single row
         ncols = xmap.shape[0]
         dy = 1
-    else:  # xmap.ndim == 2:
+    elif xmap.ndim == 2:
         nrows, ncols = xmap.shape
     return nrows, ncols, dy, dx
 
